@@ -35,6 +35,12 @@ TRUSTED = [
     "harness/epr.py: InProcConnection decodes the serialized host messages and drives the executor in-process",
 ]
 ASSUMPTIONS = [
+    "LINK-LAYER ORDER for the result half: the responses of one (remote node, socket, role) are delivered in "
+    "the order of the requests they answer; they may arrive before the matching instruction ran and "
+    "interleave arbitrarily with other sockets (the multi-call stream does both). Pair i of a completed "
+    "call = the i-th response generated for its queue after those of earlier calls",
+    "socket min_fidelity is not a call parameter: it travels in OpenEPRSocketMessage, never in the request "
+    "(minimum_fidelity = 0 in every LinkLayerCreate)",
     "expectedCreate (the specification) transmits the time unit only together with a non-zero limit "
     "(max_time = 0 means no limit in any unit) and leaves minimum_fidelity/priority/atomic/consecutive/"
     "probability distributions at the LinkLayerCreate defaults (the API has no parameter for them)",
